@@ -20,7 +20,7 @@ CHUNK = 40000
 def plan(tier, seed):
     shards = []
     no = 0
-    nrand = 8 if tier == "quick" else 160
+    nrand = 16 if tier == "quick" else 1600
     for fam in ("fq", "fr"):
         for part in ("grid_bin", "grid_un", "pow", "repr", "repr_shift"):
             shards.append(dict(no=no, fam=fam, part=part))
